@@ -44,7 +44,7 @@ class Result:
         return {s: sorted(set(v), key=lambda x: (x[0] or 0, x[1])) for s, v in out.items()}
 
 
-def analyse(f, tracked, kill_strength, edge_refresh=None, edge_unkill=None, subscript_is_use=False):
+def analyse(f, tracked, kill_strength, edge_refresh=None, edge_unkill=None, subscript_is_use=False, infeasible_edges=()):
     """tracked: {var id: name}.  kill_strength(call node, state) -> None | label.
     edge_refresh(cond, truth) -> iterable of var ids made current on that edge.
     edge_unkill(cond, truth, block) -> predicate on sites to drop on that edge (or None)."""
@@ -100,6 +100,8 @@ def analyse(f, tracked, kill_strength, edge_refresh=None, edge_unkill=None, subs
         return t
 
     def edge(blk, idx, s, st):
+        if (blk.id, s) in infeasible_edges:
+            return None
         c = f.branch_cond(blk)
         if c is None or idx > 1:
             return st
